@@ -85,7 +85,7 @@ func NewDomConverter(flags ConverterFlag, builder webdoc.DocumentBuilder, pageUR
 
 func (dc *DomConverter) Convert(root *html.Node) {
 	clone := dom.Clone(root, true)
-	removeForeignRawTextElements(root, clone)
+	removeForeignRawTextElements(root, clone, root.Namespace != "")
 	domutil.WalkNodes(clone, dc.visitNodeHandler, dc.exitNodeHandler)
 }
 
@@ -96,23 +96,27 @@ var rawTextTagNames = map[string]struct{}{
 	"plaintext": {}, "script": {}, "style": {}, "xmp": {},
 }
 
-// removeForeignRawTextElements removes from the clone the elements of SVG or MathML
-// content that are named like a raw text element of HTML. There they are ordinary
-// elements with ordinary (escaped) text, but a clone doesn't know its namespace any
-// more and the serialiser decides by name only, so it would write their text raw
-// and "&lt;iframe&gt;" inside <math><xmp> would come back as a live element when the
-// distilled output is parsed again. The clone has the same shape as the original,
-// which is only read here.
-func removeForeignRawTextElements(original, clone *html.Node) {
+// removeForeignRawTextElements removes from the clone the elements inside SVG or
+// MathML content that are named like a raw text element of HTML. As foreign
+// elements they are ordinary elements with ordinary (escaped) text, but a clone
+// doesn't know its namespace any more and the serialiser decides by name only, so
+// it would write their text raw and "&lt;iframe&gt;" inside <math><xmp> would come
+// back as a live element when the distilled output is parsed again. The same goes
+// for real <xmp> elements at an HTML integration point (<annotation-xml
+// encoding="text/html">, <foreignObject>): once the attributes are stripped or the
+// context changes, they are parsed as foreign elements and their text as markup.
+// The clone has the same shape as the original, which is only read here.
+func removeForeignRawTextElements(original, clone *html.Node, inForeignContent bool) {
 	originalChild, cloneChild := original.FirstChild, clone.FirstChild
 	for originalChild != nil && cloneChild != nil {
 		nextOriginal, nextClone := originalChild.NextSibling, cloneChild.NextSibling
 
+		childInForeignContent := inForeignContent || originalChild.Namespace != ""
 		_, isRawText := rawTextTagNames[originalChild.Data]
-		if originalChild.Type == html.ElementNode && originalChild.Namespace != "" && isRawText {
+		if originalChild.Type == html.ElementNode && childInForeignContent && isRawText {
 			clone.RemoveChild(cloneChild)
 		} else {
-			removeForeignRawTextElements(originalChild, cloneChild)
+			removeForeignRawTextElements(originalChild, cloneChild, childInForeignContent)
 		}
 
 		originalChild, cloneChild = nextOriginal, nextClone
